@@ -613,3 +613,149 @@ pub const ERROR_SUBJECTS: [&str; 56] = [
     "-type q",
     "-print -fls out",
 ];
+
+
+/// A near miss of an expression: the same text with one argument respelled — a size in another
+/// unit (same number of bytes, now and then not), a mode in the other notation, an output file
+/// under another name for the same file, a pattern or a test in the other case. Whether the two
+/// parse to equal trees is the library's call; the harness only holds it to its answer.
+pub fn near_miss(rng: &mut Rng, text: &str) -> Option<String> {
+    let mut toks: Vec<String> = text.split(' ').map(String::from).collect();
+    let mut sites: Vec<(usize, u8)> = vec![];
+    for i in 0..toks.len() {
+        let has_arg = i + 1 < toks.len() && !toks[i + 1].is_empty() && !toks[i + 1].contains(['"', '\'']);
+        match toks[i].as_str() {
+            "-size" if has_arg => sites.push((i, 0)),
+            "-name" | "-iname" | "-path" | "-ipath" => {
+                sites.push((i, 1));
+                if has_arg {
+                    sites.push((i, 2));
+                }
+            }
+            "-perm" if has_arg => sites.push((i, 3)),
+            "-fprint" | "-fprint0" | "-fprintf" if has_arg => sites.push((i, 4)),
+            "-uid" | "-gid" | "-links" | "-inum" | "-mtime" | "-atime" | "-ctime" | "-mmin" | "-amin" | "-cmin" if has_arg => sites.push((i, 5)),
+            _ => {}
+        }
+    }
+    if sites.is_empty() {
+        return None;
+    }
+    let (i, kind) = *rng.pick(&sites);
+    match kind {
+        0 => {
+            let arg = toks[i + 1].clone();
+            let (sign, rest) = match arg.chars().next() {
+                Some(c @ ('+' | '-')) => (c.to_string(), &arg[1..]),
+                _ => (String::new(), &arg[..]),
+            };
+            let digits: String = rest.chars().take_while(|c| c.is_ascii_digit()).collect();
+            let unit = &rest[digits.len()..];
+            let n: u128 = digits.parse().ok()?;
+            let bytes_of = |u: &str| -> Option<u128> {
+                Some(match u {
+                    "c" => 1,
+                    "w" => 2,
+                    "b" | "" => 512,
+                    "k" => 1 << 10,
+                    "M" => 1 << 20,
+                    "G" => 1 << 30,
+                    "T" => 1u128 << 40,
+                    _ => return None,
+                })
+            };
+            let total = n.checked_mul(bytes_of(unit)?)?;
+            let units = ["c", "w", "b", "k", "M", "G", "T", ""];
+            let fitting: Vec<&str> = units.iter().copied().filter(|u| *u != unit && total % bytes_of(u).unwrap() == 0).collect();
+            let new = if !fitting.is_empty() && !rng.chance(1, 5) {
+                let u = *rng.pick(&fitting);
+                format!("{sign}{}{u}", total / bytes_of(u).unwrap())
+            } else {
+                format!("{sign}{n}{}", rng.pick(&units))
+            };
+            toks[i + 1] = new;
+        }
+        1 => {
+            toks[i] = match toks[i].as_str() {
+                "-name" => "-iname",
+                "-iname" => "-name",
+                "-path" => "-ipath",
+                _ => "-path",
+            }
+            .to_string();
+        }
+        2 => {
+            let flipped: String = toks[i + 1].chars().map(|c| if c.is_ascii_lowercase() { c.to_ascii_uppercase() } else { c.to_ascii_lowercase() }).collect();
+            if flipped == toks[i + 1] {
+                return None;
+            }
+            toks[i + 1] = flipped;
+        }
+        3 => {
+            // octal <-> symbolic, for the nine permission bits
+            let arg = toks[i + 1].clone();
+            let (prefix, rest) = match arg.chars().next() {
+                Some(c @ ('-' | '/' | '+')) => (c.to_string(), &arg[1..]),
+                _ => (String::new(), &arg[..]),
+            };
+            if !rest.is_empty() && rest.chars().all(|c| ('0'..='7').contains(&c)) && rest.len() <= 4 {
+                let bits = u32::from_str_radix(rest, 8).ok()?;
+                if bits > 0o777 {
+                    toks[i + 1] = format!("{prefix}{:04o}", bits & 0o777);
+                } else {
+                    let part = |who: char, b: u32| {
+                        let mut p = format!("{who}=");
+                        for (m, ch) in [(4, 'r'), (2, 'w'), (1, 'x')] {
+                            if b & m != 0 {
+                                p.push(ch);
+                            }
+                        }
+                        p
+                    };
+                    toks[i + 1] = format!("{prefix}{},{},{}", part('u', bits >> 6 & 7), part('g', bits >> 3 & 7), part('o', bits & 7));
+                }
+            } else {
+                // another order of the clauses, or of the letters of a clause
+                let mut clauses: Vec<String> = rest.split(',').map(String::from).collect();
+                if clauses.len() > 1 {
+                    clauses.reverse();
+                } else if let Some(pos) = clauses[0].find(['+', '=', '-']) {
+                    let (who, lv) = clauses[0].split_at(pos + 1);
+                    let rev: String = lv.chars().rev().collect();
+                    clauses[0] = format!("{who}{rev}");
+                }
+                let new = format!("{prefix}{}", clauses.join(","));
+                if new == arg {
+                    return None;
+                }
+                toks[i + 1] = new;
+            }
+        }
+        4 => {
+            let f = toks[i + 1].clone();
+            toks[i + 1] = if let Some(stripped) = f.strip_prefix("./") {
+                stripped.to_string()
+            } else if f.starts_with('/') {
+                format!("/.{f}")
+            } else {
+                format!("./{f}")
+            };
+        }
+        _ => {
+            // another spelling of the same number
+            let arg = toks[i + 1].clone();
+            let (sign, rest) = match arg.chars().next() {
+                Some(c @ ('+' | '-')) => (c.to_string(), &arg[1..]),
+                _ => (String::new(), &arg[..]),
+            };
+            if rest.is_empty() || !rest.chars().all(|c| c.is_ascii_digit()) {
+                return None;
+            }
+            toks[i + 1] = if rng.chance(1, 2) { format!("{sign}0{rest}") } else { format!("{sign}{}", rest.trim_start_matches('0').to_string() + if rest.trim_start_matches('0').is_empty() { "0" } else { "" }) };
+            if toks[i + 1] == arg {
+                return None;
+            }
+        }
+    }
+    Some(toks.join(" "))
+}
